@@ -65,6 +65,7 @@ FOCUS = {
     "closures_own_on_tree": ["into-func"],
     "slots_in_frame_on_tree": ["frame-slots"],
     "globals_upgrades_rechecked_on_tree": ["compile-race"],
+    "globals_inserts_exclusive_on_tree": ["compile-race"],
     "globals_entries_frozen_on_tree": ["multi-runtime"],
     "names_resolved_per_runtime_on_tree": ["multi-runtime"],
 }
